@@ -89,13 +89,29 @@ pub fn instantiate_matrix(opts: &Opts, st: &mut Stats, thorough: bool) -> Vec<Hi
         ("executors", json!(["EXEC"])),
         ("approvers", json!(["ok1", "x"])),
     ];
-    let precs: Vec<u32> = if thorough { (0..=20).collect() } else { vec![0, 1, 2, 6, 17, 18, 19, 20] };
+    let mut precs: Vec<u128> = if thorough { (0..=20).collect() } else { vec![0, 1, 2, 6, 17, 18, 19, 20] };
+    // integer-narrowing classes: values whose low 8 / 16 / 32 / 64 bits look like a legal precision
+    for base in [1u128 << 8, 1u128 << 16, 1u128 << 32, 1u128 << 64] {
+        for low in [0u128, 2, 18] {
+            precs.push(base + low);
+        }
+    }
+    precs.extend([38, 39, 255, u32::MAX as u128, u64::MAX as u128, u128::MAX]);
     for p in precs {
         let mut incs: Vec<String> = vec!["0".into(), "1".into(), "7".into()];
         if p <= 30 {
-            let t = 10u128.pow(p.min(30));
+            let t = 10u128.pow(p.min(30) as u32);
             for v in [t.saturating_sub(1), t, t + 1, t * 2, t * 10, t * 25, t / 10, t * 10 + t / 10] {
                 incs.push(v.to_string());
+            }
+        } else {
+            // increments that would be legal for the precision's low bits
+            for bits in [8u32, 16, 32, 64] {
+                let low = p & ((1u128 << bits) - 1);
+                if low <= 30 {
+                    incs.push(10u128.pow(low as u32).to_string());
+                    incs.push((10u128.pow(low as u32) * 3).to_string());
+                }
             }
         }
         incs.sort();
@@ -311,6 +327,27 @@ pub fn version_matrix(opts: &Opts, st: &mut Stats) -> Vec<History> {
             if !h.found.is_empty() {
                 found.push(h);
             }
+        }
+    }
+    // a large book of old-format bids (conversion must not depend on the book's size)
+    for (n, v) in [(101usize, "0.18.2"), (257, "0.16.2"), (150, "0.19.1")] {
+        let mut h = fork(&base, &format!("W4:versions:large-book:{}:{}", n, v));
+        for i in 0..n {
+            let id = uuid(5000 + i as u64);
+            let fee = if i % 3 == 0 { Value::Null } else { json!({"amount": "9", "denom": "q0"}) };
+            let blk = json!({"height": 7, "time": "1571797419879305533"});
+            let ev = json!([
+                {"action": {"Fill": {"base": {"amount": "1", "denom": "base"}, "fee": if i % 3 == 0 { Value::Null } else { json!({"amount": "1", "denom": "q0"}) }, "price": "10", "quote": {"amount": "10", "denom": "q0"}}}, "block_info": blk},
+                {"action": {"Refund": {"fee": Value::Null, "quote": {"amount": (i % 4).to_string(), "denom": "q0"}}}, "block_info": blk},
+            ]);
+            let v2 = json!({"base": {"amount": "9", "denom": "base"}, "events": ev, "fee": fee, "id": id, "owner": "bobby", "price": "10", "quote": {"amount": "90", "denom": "q0"}});
+            h.w.store.data.insert(map_key("bid", &id), serde_json::to_vec(&v2).unwrap());
+        }
+        h.step(version_op(v), opts, st);
+        h.step(Op::Migrate { msg: json!({}) }, opts, st);
+        st.count("C15", "large_book_migrations");
+        if !h.found.is_empty() {
+            found.push(h);
         }
     }
     // no version record at all
